@@ -12,7 +12,9 @@ open SF
 theorem inclusive_bridge (key : PySlice) (offset : Int) :
     Gen.slice_to_inclusive_slice key offset = some (sliceToInclusive key offset) := by
   obtain ⟨a, b, c⟩ := key
-  cases a <;> cases b <;> cases c <;> simp [Gen.slice_to_inclusive_slice, sliceToInclusive]
+  cases a <;> cases b <;> cases c <;>
+    simp [Gen.slice_to_inclusive_slice, sliceToInclusive, inclusiveStop] <;>
+    (split <;> try split) <;> simp_all
 
 theorem ascending_bridge (key : PySlice) (size : Int) :
     Gen.slice_to_ascending_slice key size = sliceToAscending key size := by
